@@ -98,12 +98,73 @@ func checkC05(r *Run) {
 	r.Rule("C05.R1.authorize", "the resource returned by Gate.Authorize is used only after its error was tested nil; writer structs hold no direct reference to the controlled resource; domain.Writer methods are invoked in package unary only through an authorized or released resource", 6)
 	r.Rule("C05.R2.GUARD", "control-plane state (region.curr/gates/counter/timeRange, Gate.authority, Controller.regions) is accessed under its lock", 20)
 	r.Rule("C05.R2.atomic", "Controller.remove decides emptiness and removes the region inside one Controller.mu write section; Gate.position is taken from region.counter, which only ever increases", 3)
+	r.Rule("C05.R4.rejected", "idxWriter.write advances the index high-water mark before authorization, so every path on which a write was rejected as ErrUnauthorized resets hasUncommittedData before returning", 1)
 	r.Rule("C05.R3.transfers", "every call in package cesium that yields a control.Transfer or ControlUpdate binds it, appends it to a ControlUpdate on the success/Occurred path and forwards that update (updateControlDigests / updateDBControl / return); discards only where tabled", 10)
 
 	la := applyLockRules(r, p, lockRuleSet{Prefix: "C05.R2", Scope: cesiumScope, Guards: cesiumGuards[6:12], MinOps: 100, MinAcc: 40})
 	checkAuthorize(r, p)
 	checkControlAtomic(r, p, la)
 	checkTransfers(r, p)
+	checkRejectedWrite(r, p)
+}
+
+// checkRejectedWrite decides C05.R4: idxWriter.write advances the index high-water mark
+// (updateHighWater) before the index write is authorized. A frame rejected as unauthorized
+// must therefore not leave the writer believing it has uncommitted data, or a later Commit
+// (after control returns) persists a domain that ends at the rejected frame's timestamp.
+func checkRejectedWrite(r *Run, p *Prog) {
+	fn := p.Func("cesium", "idxWriter", "write")
+	hw := p.Func("cesium", "idxWriter", "updateHighWater")
+	flag := p.FieldOf("cesium", "idxWriter", "hasUncommittedData")
+	if fn == nil || hw == nil || flag == nil {
+		r.Undecide("C05.R4: idxWriter.write / updateHighWater / hasUncommittedData not found")
+		return
+	}
+	c := p.CFG(fn)
+	hwCalls := CallsIn(fn, calleeIs(hw))
+	if len(hwCalls) == 0 {
+		r.ObTrivial("C05.R4.rejected", "idxWriter.write does not advance the high-water mark itself", p.Position(fn.Pos()), true, "")
+		return
+	}
+	isUnauthAtom := func(atom ast.Expr) bool {
+		call, ok := ast.Unparen(atom).(*ast.CallExpr)
+		if !ok || len(call.Args) != 2 {
+			return false
+		}
+		f := CalleeFunc(fn, call)
+		if f == nil || f.Name() != "Is" {
+			return false
+		}
+		return strings.HasSuffix(types.ExprString(call.Args[1]), "ErrUnauthorized")
+	}
+	unauth := c.EdgesEstablishing(func(atom ast.Expr, val bool) bool { return isUnauthAtom(atom) && val })
+	notUnauth := c.EdgesEstablishing(func(atom ast.Expr, val bool) bool { return isUnauthAtom(atom) && !val })
+	if len(unauth) == 0 {
+		r.Undecide("C05.R4: no errors.Is(.., ErrUnauthorized) test in idxWriter.write")
+		return
+	}
+	// does the high-water mark move before authorization? (a write call follows it)
+	isReset := func(n ast.Node) bool {
+		as, ok := n.(*ast.AssignStmt)
+		if !ok || !isStoreTo(fn, n, flag) || len(as.Rhs) != 1 {
+			return false
+		}
+		id, ok := ast.Unparen(as.Rhs[0]).(*ast.Ident)
+		return ok && id.Name == "false"
+	}
+	var starts []Point
+	for e := range unauth {
+		starts = append(starts, Point{e.B.Succs[e.Succ], -1})
+	}
+	q, vis := c.ReachAvoiding(starts, notUnauth, isReset)
+	var path []string
+	for _, ex := range c.Exits() {
+		if vis[ex.P] {
+			path = q.PathTo(ex.P)
+		}
+	}
+	r.ObPath("C05.R4.rejected", "a frame rejected as unauthorized clears idxWriter.hasUncommittedData before write returns", p.Position(fn.Pos()), path == nil,
+		"updateHighWater ran before the authorization; without the reset a Commit after control returns persists an index domain ending at the rejected frame", path)
 }
 
 func checkAuthorize(r *Run, p *Prog) {
